@@ -56,11 +56,20 @@ private:
         }
         else if(t.presence == field_presence::required)
         {
-            return {"min_value", "max_value"};
+            return {
+                "min_value", "max_value", "value_type", "value", "in_range"};
         }
         else
         {
-            return {"min_value", "max_value", "null_value"};
+            return {
+                "min_value",
+                "max_value",
+                "null_value",
+                "value_type",
+                "value",
+                "in_range",
+                "value_or",
+                "has_value"};
         }
     }
 
